@@ -41,11 +41,13 @@ struct End {
     to_submit: Vec<u8>,
     /// what the application has read
     read: Vec<u8>,
+    /// every segment emitted: (SEQ - ISS, ACK - IRS, text length, control bits, window)
+    trace: Vec<(u32, u32, u32, u8, u16)>,
 }
 
 impl End {
     fn new(tcb: Option<Tcb>, stream: Vec<u8>) -> Self {
-        Self { tcb, released: false, submitted: Vec::new(), to_submit: stream, read: Vec::new() }
+        Self { tcb, released: false, submitted: Vec::new(), to_submit: stream, read: Vec::new(), trace: Vec::new() }
     }
     fn submit(&mut self, n: usize) {
         if let Some(tcb) = self.tcb.as_mut() {
@@ -59,7 +61,21 @@ impl End {
     }
     fn emit(&mut self) -> Vec<Segment> {
         match self.tcb.as_mut() {
-            Some(tcb) if !self.released => tcb.segments(),
+            Some(tcb) if !self.released => {
+                let segs = tcb.segments();
+                for s in segs.iter() {
+                    // (C17) data is never sent beyond the right edge of the window the peer advertised
+                    let end = s.header.seq.wrapping_add(s.text.len() as u32);
+                    // (while the endpoint's own SYN is unacknowledged the code is off by the SYN's sequence number: known finding
+                    //  tcb.kani.scenario.window_counts_the_unacknowledged_syn, decided by its own scenario)
+                    assert!(s.text.len() == 0 || tcb.snd.una == tcb.snd.iss || end.wrapping_sub(tcb.snd.una) <= tcb.snd.wnd as u32 || end.wrapping_sub(tcb.snd.una) >= 0x8000_0000,
+                        "a data segment ends {} octets after SND.UNA although SND.WND is {}", end.wrapping_sub(tcb.snd.una), tcb.snd.wnd);
+                    // trace relative to the initial sequence numbers (C12: independent of their absolute values)
+                    let rel_ack = if s.header.ctl.ack() { s.header.ack.wrapping_sub(tcb.rcv.irs) } else { 0 };
+                    self.trace.push((s.header.seq.wrapping_sub(tcb.snd.iss), rel_ack, s.text.len() as u32, u8::from(s.header.ctl), s.header.wnd));
+                }
+                segs
+            }
             _ => Vec::new(),
         }
     }
@@ -132,11 +148,31 @@ fn ab_push(g: &mut Lcg, wire: &mut Vec<Segment>, segs: Vec<Segment>, lossy: bool
     }
 }
 
+type Trace = Vec<(u32, u32, u32, u8, u16)>;
+
 pub fn run(seeds: std::ops::Range<u64>) {
     for seed in seeds {
+        // (C12) the same history under three choices of initial sequence numbers: small ones, ones that make both streams cross
+        // the 2^32 wrap, ones that cross the 2^31 boundary - the traces relative to the ISNs must be identical
+        let mut g = Lcg(seed ^ 0x0f0f_1234);
+        let k = (g.next(0x1000) as u32, g.next(0x1000) as u32);
+        let base = run_one(seed, 100 + k.0, 300 + k.1);
+        for (what, ia, ib) in [("cross the 2^32 wrap", 0xffff_f000u32.wrapping_add(k.0), 0xffff_f800u32.wrapping_add(k.1)),
+                               ("cross the 2^31 boundary", 0x7fff_f000u32.wrapping_add(k.0), 0x7fff_f800u32.wrapping_add(k.1)),
+                               ("are arbitrary", iss(&mut g), iss(&mut g))] {
+            let other = run_one(seed, ia, ib);
+            assert!(base == other, "the segment trace relative to the initial sequence numbers changes when the sequence numbers {what} (seed {seed}, ISS {ia:#x} / {ib:#x}): {} vs {} segments A->B, {} vs {} B->A",
+                base.0.len(), other.0.len(), base.1.len(), other.1.len());
+        }
+    }
+}
+
+fn run_one(seed: u64, iss_a: u32, iss_b: u32) -> (Trace, Trace) {
+    {
         let mut g = Lcg(seed.wrapping_mul(0x9e3779b97f4a7c15) ^ 0x1234_5678_9abc_def1);
-        let (iss_a, iss_b) = (iss(&mut g), iss(&mut g));
-        let stream = |g: &mut Lcg, tag: u8| -> Vec<u8> { let n = g.next(6001); (0..n).map(|i| (i as u8).wrapping_mul(31).wrapping_add(tag)).collect() };
+        // one history in five moves bursts larger than the 65535-octet window
+        let big = g.next(5) == 0;
+        let stream = |g: &mut Lcg, tag: u8| -> Vec<u8> { let n = if big { 60_000 + g.next(90_001) } else { g.next(6001) }; (0..n).map(|i| (i as u8).wrapping_mul(31).wrapping_add(tag)).collect() };
         let sa = stream(&mut g, 1);
         let sb = stream(&mut g, 101);
         // each side keeps a reserve that it submits immediately before its close()
@@ -148,8 +184,8 @@ pub fn run(seeds: std::ops::Range<u64>) {
 
         // ---------------- lossy phase: loss, duplication, delay, reordering ----------------
         for step in 0..LOSSY {
-            if g.next(2) == 0 { let n = g.next(2500); a.submit(n); }
-            if g.next(2) == 0 { let n = g.next(2500); b.submit(n); }
+            if g.next(2) == 0 { let n = g.next(if big { 100_000 } else { 2500 }); a.submit(n); }
+            if g.next(2) == 0 { let n = g.next(if big { 100_000 } else { 2500 }); b.submit(n); }
             for (from, wire) in [(&mut a, &mut ab), (&mut b, &mut ba)] {
                 for seg in from.emit() {
                     match g.next(8) {
@@ -232,5 +268,6 @@ pub fn run(seeds: std::ops::Range<u64>) {
             a.released, a.tcb.as_ref().map(|t| t.status()), b.released, b.tcb.as_ref().map(|t| t.status()));
         assert_eq!(b.read.len(), a.submitted.len(), "A -> B: octets submitted before close() were not all delivered (seed {seed})");
         assert_eq!(a.read.len(), b.submitted.len(), "B -> A: octets submitted before close() were not all delivered (seed {seed})");
+        (a.trace, b.trace)
     }
 }
